@@ -416,7 +416,7 @@ def run(tier, V):
            'evaluations': tot.get('nseq', 0) + len(hres), 'distinct_nontrivial': tot.get('nundo', 0) + tot.get('nredo', 0) + nchk, 'exhaustive': True,
            'rule': ('probe: ALL sequences of length %d over 9 operations (6 splices, new-command, undo, redo) on buffers of 0..3 lines, text compared with a snapshot-stack model after every op '
                     '(lbuf_edit/lbuf_undo/lbuf_redo/lbuf_modified), plus in quick a 1/16 slice of length %d; real binary: %d random ex and %d random vi histories of 5-30 steps mixing single edits, counted '
-                    'commands, :g, :s, filters, multi-line inserts, J, puts, compound lines with u/redo/^R walks past both ends, dump after every step, stack built from observed texts; + two-buffer ex histories whose command lines edit and switch buffers (one undo step per line and buffer); + edit / K neutral commands / edit / u for every K around 0, 128, 256, 512 in ex and in vi with ru=0,1,2,4.  '
+                    'commands, :g, :s, filters, multi-line inserts, J, puts, compound lines (also with writes to other files, and with undo / redo inside the line, followed step by step through the snapshot stack), histories under autowrite with :!cmd steps, u/redo/^R walks past both ends, dump after every step, stack built from observed texts; + two-buffer ex histories whose command lines edit and switch buffers (one undo step per line and buffer); + edit / K neutral commands / edit / u for every K around 0, 128, 256, 512 in ex and in vi with ru=0,1,2,4.  '
                     'non-trivial = an undo or redo whose resulting text was compared.' % (depth, depth + 1, nh, nh)),
            'samples': samples or [{'note': 'no history reached 3 checks'}]}
     assumptions = ['an undo step is the set of splices between two lbuf_modified() calls (what ex_command()/vi() do once per top-level command)',
